@@ -26,6 +26,17 @@ caller uses; half of the cases whose ordering is the code-point order), an int-v
 tuple-valued or a str-valued callable inducing the same ranking.  Part of the generators are
 consumed in two pieces with `clear_cache()` / other queries on the same object in between
 (partially consumed generators, see also C20).
+
+Round 3 (seeded changes C14_w3m2, C20_w3m3, and the C14 side of C13_w3m1): CHAINS — 3–8 successor-search calls
+(successors / predecessors / successor / predecessor) made one after the other on ONE live object.  Part of the
+steps start at the word the previous call returned (`w = d.successor(w)` loops, then the same word asked about
+again non-strictly, strictly, in the other direction, with another window, through the generator); between
+consecutive calls strictness, direction, window, wrapper and the RANKING are changed.  keymode "shared" hands
+the SAME callable object to every call of the chain (four ways of writing it: `rank.get`, a closure over the
+dict, a closure over a rebound variable, a callable instance) and changes the ranking behind it; the oracle
+uses the ranking in force at the moment of the call.  Live objects are built under the default options or
+under allow_mutable_automata=True from plain / aliased / copied containers; the oracle and the model see the
+frozen twin.  A failing chain is minimised and recorded as a concrete replay.
 """
 from __future__ import annotations
 
@@ -49,7 +60,11 @@ RULE = ("cases = (valid DFA, start string or None, strict, key (None / int- / tu
         "tier), then shaped random DFAs (≤6 states) whose start and window are aimed at an accepted word in 70 % of the "
         "cases (starts: None, '', accepted words, prefixes, extensions, unreadable, longer than max_length); a case is "
         "non-trivial when the DFA has ≥2 states and the expected output is non-empty; distinct = distinct "
-        "(definition, arguments)")
+        "(definition, arguments); chains = 3–8 calls on ONE object (answers fed back as the next start, strictness / "
+        "direction / window / wrapper / ranking changed between consecutive calls, one shared key callable re-ranked "
+        "between calls, object built under the default options or under allow_mutable_automata=True from plain "
+        "containers): every ordering of the alphabet in turn and written-out successor loops on 5 corpus DFAs, random "
+        "chains on shaped random DFAs, each answer judged by the sorted filter with the ranking of that moment")
 F13_KEY = "C14:start-string-with-foreign-symbol"
 F14_KEY = "C14:empty-alphabet"
 
@@ -57,6 +72,10 @@ ASSUMPTIONS = [
     "positive theorems: start strings use only symbols of a non-empty alphabet; outside that the code fails (foreign symbol → KeyError: open finding F13; empty alphabet → IndexError: open finding F14), reproduced and reported on every run",
     "forward direction on an infinite language is only used with max_length (otherwise the generator need not produce a next word)",
     "the key is injective on the alphabet (a symbol ordering); no state is literally None",
+    "a key callable is a pure function DURING a call; between two calls its ranking may change (same callable object): "
+    "each call must honour the ranking in force when it is made",
+    "allow_mutable_automata=True: the caller does not modify the containers it handed over; answers are judged against "
+    "the definition as built (frozen twin)",
 ]
 EXPLANATION = ("Theorems C14_* relate the model's stack machine to the sorted filter of the window set; this "
                "run ties the model to the code by differential execution and evaluates the property on the "
@@ -521,6 +540,18 @@ def check_dfa_random(ctx: Ctx, d: DFA, origin: str, cases: int):
 # The live object is built by L3.build_live (default options or allow_mutable_automata=True with plain
 # containers); every answer is judged by the brute-force sorted filter evaluated on the frozen twin.
 CHAIN_CALLS = ["successors", "predecessors", "successor", "predecessor"]
+CHAIN_TIMEOUT_S = 4
+MINIMISE_BUDGET_S = 12
+
+
+def hanging(ctx: Ctx, limit: int = 3) -> bool:
+    """A traversal that no longer terminates costs a full time-out per call: after a few of them the family
+    stops (the failing inputs found so far are reported)."""
+    if L.TIMEOUTS >= limit:
+        if not any("did not return" in n for n in ctx.notes):
+            ctx.note(f"{L.TIMEOUTS} real calls did not return within their time limit; chain family cut short")
+        return True
+    return False
 
 
 class ChainOracle:
@@ -592,7 +623,7 @@ def show_chain_step(p: dict) -> str:
     return txt if p["call"] in ("successor", "predecessor") else f"first {p['n']} of {txt}"
 
 
-def chain_call(c: DFA, p: dict, shared: L3.SharedKey):
+def chain_call_raw(c: DFA, p: dict, shared: L3.SharedKey):
     kw = dict(strict=p["strict"], min_length=p["min"], max_length=p["max"])
     mode = p.get("keymode", "int")
     if mode == "shared":
@@ -601,17 +632,17 @@ def chain_call(c: DFA, p: dict, shared: L3.SharedKey):
         kw["key"] = None if mode == "none_explicit" else key_callable(p)
     call_ = p["call"]
     if call_ == "successors":
-        return guarded(lambda: list(itertools.islice(c.successors(p["start"], reverse=p["reverse"], **kw), p["n"])))
+        return list(itertools.islice(c.successors(p["start"], reverse=p["reverse"], **kw), p["n"]))
     if call_ == "predecessors":
-        return guarded(lambda: list(itertools.islice(c.predecessors(p["start"], **kw), p["n"])))
+        return list(itertools.islice(c.predecessors(p["start"], **kw), p["n"]))
     if call_ == "successor":
-        return guarded(lambda: c.successor(p["start"], **kw))
-    return guarded(lambda: c.predecessor(p["start"], **kw))
+        return c.successor(p["start"], **kw)
+    return c.predecessor(p["start"], **kw)
 
 
 def run_chain(d: DFA, mode: str, style: str, chain, orc: ChainOracle = None):
-    """Build the live object and ONE shared callable, make the calls, judge every answer.
-    Returns (observations, failures [(index, message)])."""
+    """Build the live object and ONE shared callable, make the calls, judge every answer; stops at the first
+    wrong answer.  Returns (observations, failures [(index, message)])."""
     orc = orc or ChainOracle(d)
     obs, bad = [], []
     with L3.mutable_option(mode):
@@ -619,21 +650,26 @@ def run_chain(d: DFA, mode: str, style: str, chain, orc: ChainOracle = None):
         live = L3.build_live(d, mode, keep)
         shared = L3.SharedKey(style)
         for i, p in enumerate(chain):
-            got = chain_call(live, p, shared)
+            got = L.guarded(lambda: chain_call_raw(live, p, shared), CHAIN_TIMEOUT_S)
             obs.append(got)
             exp = orc.expected(p)
             if got != exp:
-                bad.append((i, f"= {str(got)[:160]}, the sorted filter of the window set gives {str(exp)[:160]}"))
+                shown = "no answer within %d s" % CHAIN_TIMEOUT_S if got == ("err", "_Timeout") else f"= {str(got)[:160]}"
+                bad.append((i, f"{shown}, the sorted filter of the window set gives {str(exp)[:160]}"))
+                break
     return obs, bad
 
 
 def minimise_chain(d: DFA, mode: str, style: str, chain, index: int, orc: ChainOracle):
+    """Shortest sub-chain (greedy, one step at a time, within a time budget) that still ends in a wrong answer."""
+    import time
+    t0 = time.time()
     cur = [dict(p) for p in chain[: index + 1]]
     fails_at_end = lambda ch: any(i == len(ch) - 1 for i, _ in run_chain(d, mode, style, ch, orc)[1])
     if not fails_at_end(cur):
         return cur
     j = len(cur) - 2
-    while j >= 0 and len(cur) > 1:
+    while j >= 0 and len(cur) > 1 and time.time() - t0 < MINIMISE_BUDGET_S:
         cand = cur[:j] + cur[j + 1:]
         if fails_at_end(cand):
             cur = cand
@@ -653,6 +689,8 @@ def chain_step_in_domain(d: DFA, p: dict, shape: dict) -> bool:
 
 @case_guard
 def check_chain(ctx: Ctx, d: DFA, mode: str, style: str, chain, origin: str, orc: ChainOracle = None, model: bool = True):
+    if hanging(ctx):
+        return
     orc = orc or ChainOracle(d)
     shape = orc.shape
     chain = [p for p in chain if chain_step_in_domain(d, p, shape)]
@@ -679,7 +717,7 @@ def check_chain(ctx: Ctx, d: DFA, mode: str, style: str, chain, origin: str, orc
                         answers=[str(o)[:60] for o in obs[:6]]))
     if bad:
         i, msg = bad[0]
-        small = minimise_chain(d, mode, style, chain, i, orc)
+        small = chain[: i + 1] if obs[i] == ("err", "_Timeout") else minimise_chain(d, mode, style, chain, i, orc)
         hist = "; ".join(show_chain_step(p) for p in small[:-1])
         what = (f"{show_chain_step(chain[i])} {msg} — on ONE object ({mode} containers, shared key written as {style}) "
                 + (f"after [{hist}]" if hist else "as its first call"))
@@ -843,6 +881,8 @@ def chain_family(ctx: Ctx):
         sy = sorted(d.input_symbols)
         cp = {c: i for i, c in enumerate(sy)}
         rv = {c: -i for i, c in enumerate(sy)}
+        if hanging(ctx):
+            return
         for style in L3.KEY_STYLES:
             for mode in ("frozen", "plain"):
                 check_chain(ctx, d, mode, style, rerank_chain(d, orc, hi), "corpus_rerank", orc)
@@ -855,6 +895,8 @@ def chain_family(ctx: Ctx):
                         check_chain(ctx, d, mode, "dict_get", walk_chain(orc, sy[-1] * 3, lo, h, keymode, key, reverse=True),
                                     "corpus_walk", orc)
     for _ in range(ctx.budget(420, 9000)):
+        if hanging(ctx):
+            return
         d, kind = L.shaped_dfa(rng, 6)
         if not d.input_symbols:
             continue
